@@ -93,6 +93,8 @@ RecvOK(e, c, v) ==
 \* handler then fails is unspecified
 RepliesOK(e, c, v) ==
   \/ (~HasStatusChannel(c.proto) /\ v.failed /\ v.sentAny)
+  \* grpc-go hands the single reply of a method without a server stream to its caller only together with an OK status
+  \/ (c.proto = "grpcsock" /\ ~ServerStreams(c.shape) /\ v.failed /\ e.cl.msgs = <<>>)
   \/ /\ Len(e.cl.msgs) = Len(v.msgs)
      /\ \A k \in DOMAIN v.msgs : e.cl.msgs[k].err = "" /\ e.cl.msgs[k].idx = v.msgs[k] /\ e.cl.msgs[k].equal
 SendResOK(e, v) == [k \in DOMAIN e.h.sends |-> e.h.sends[k].err] = v.sendRes
@@ -110,7 +112,7 @@ ContentTypeOK(e, c) ==
   \* an HTTP response without a body needs no content type; if there is one it is the protocol's
   \/ (~IsGrpc(c.proto) /\ ~Has(e.cl.hdr, "content-type"))
   \/ /\ Has(e.cl.hdr, "content-type")
-     /\ IF c.proto = "grpc" THEN e.cl.hdr["content-type"] = <<"application/grpc+" \o e.c.codec>>
+     /\ IF c.proto \in {"grpc", "grpcsock"} THEN e.cl.hdr["content-type"] = <<"application/grpc+" \o e.c.codec>>
         \* (a trailers-only gRPC-web response of the pinned tree says application/grpc+codec: not C14's business)
         ELSE IF c.proto = "grpcweb"
           THEN e.cl.hdr["content-type"] \in {<<"application/grpc-web+" \o e.c.codec>>, <<"application/grpc+" \o e.c.codec>>}
